@@ -146,12 +146,17 @@ named_svc!(SvcAa, "Aa", 10, M1);
 named_svc!(SvcBB, "BB", 11, M1);
 named_svc!(SvcAb, "ab", 12, M2);
 named_svc!(SvcBa, "ba", 13, M2);
+// names related as strings: one a strict prefix of another, one a suffix, one differing in case only
+named_svc!(SvcCounter, "Counter", 14, M1);
+named_svc!(SvcCounterV2, "CounterV2", 15, M1);
+named_svc!(SvcUnter, "unter", 16, M1);
+named_svc!(SvcLower, "counter", 17, M1);
 
 shared_svc!(SvcP1, 7, [M1]);
 shared_svc!(SvcP2, 8, [M2]);
 shared_svc!(SvcP3, 9, [M1, M2]);
 
-const SVC_NAMES: [&str; 13] = ["A", "B", "C", "D", "Gen<Alpha>", "Gen<Beta>", "P1(shared)", "P2(shared)", "P3(shared)", "Aa", "BB", "ab", "ba"];
+const SVC_NAMES: [&str; 17] = ["A", "B", "C", "D", "Gen<Alpha>", "Gen<Beta>", "P1(shared)", "P2(shared)", "P3(shared)", "Aa", "BB", "ab", "ba", "Counter", "CounterV2", "unter", "counter"];
 
 /// (service name as the server knows it, [(probe label, tag)]) of every service type
 fn c13_registers(svc: usize) -> (&'static str, Vec<(&'static str, u32)>) {
@@ -169,6 +174,10 @@ fn c13_registers(svc: usize) -> (&'static str, Vec<(&'static str, u32)>) {
         10 => ("BB", vec![("BB/M1", 11)]),
         11 => ("ab", vec![("ab/M2", 12)]),
         12 => ("ba", vec![("ba/M2", 13)]),
+        13 => ("Counter", vec![("Counter/M1", 14)]),
+        14 => ("CounterV2", vec![("CounterV2/M1", 15)]),
+        15 => ("unter", vec![("unter/M1", 16)]),
+        16 => ("counter", vec![("counter/M1", 17)]),
         _ => unreachable!(),
     }
 }
@@ -202,6 +211,14 @@ fn c13_apply(server: &Server, action: u8) {
         (10, false) => server.remove_service(SvcBB::service_name()),
         (11, false) => server.remove_service(SvcAb::service_name()),
         (12, false) => server.remove_service(SvcBa::service_name()),
+        (13, true) => server.add_service(SvcCounter),
+        (14, true) => server.add_service(SvcCounterV2),
+        (15, true) => server.add_service(SvcUnter),
+        (16, true) => server.add_service(SvcLower),
+        (13, false) => server.remove_service(SvcCounter::service_name()),
+        (14, false) => server.remove_service(SvcCounterV2::service_name()),
+        (15, false) => server.remove_service(SvcUnter::service_name()),
+        (16, false) => server.remove_service(SvcLower::service_name()),
         _ => unreachable!(),
     }
 }
@@ -237,10 +254,14 @@ async fn c13_probe(channel: &Channel, nonce: u32) -> Vec<(&'static str, Result<u
     call!(SvcBB, M1, "BB/M1");
     call!(SvcAb, M2, "ab/M2");
     call!(SvcBa, M2, "ba/M2");
+    call!(SvcCounter, M1, "Counter/M1");
+    call!(SvcCounterV2, M1, "CounterV2/M1");
+    call!(SvcUnter, M1, "unter/M1");
+    call!(SvcLower, M1, "counter/M1");
     out
 }
 
-const C13_LABELS: [&str; 13] = ["A/M1", "B/M1", "C/M1", "C/M2", "D/M2", "Gen<Alpha>/M1", "Gen<Beta>/M1", "shared/M1", "shared/M2", "Aa/M1", "BB/M1", "ab/M2", "ba/M2"];
+const C13_LABELS: [&str; 17] = ["A/M1", "B/M1", "C/M1", "C/M2", "D/M2", "Gen<Alpha>/M1", "Gen<Beta>/M1", "shared/M1", "shared/M2", "Aa/M1", "BB/M1", "ab/M2", "ba/M2", "Counter/M1", "CounterV2/M1", "unter/M1", "counter/M1"];
 
 /// model: probe label -> tag of the handler serving it
 fn c13_expect(handlers: &BTreeMap<&'static str, u32>, nonce: u32) -> Vec<(&'static str, Result<u32, String>)> {
@@ -411,7 +432,7 @@ pub fn c13(args: &Args) {
     let mut report = Report::new(
         args,
         "E3-registry",
-        "services A,B (message M1), C (M1,M2), D (M2) and two instantiations Gen<Alpha>, Gen<Beta> of one generic service (M1; names differing only inside <...>) on one real Server: every history of <= 5 actions out of {add X, remove X} over A-D (8 actions incl. double add, double remove, remove-unknown; 37 448 histories) over {A, Gen<Alpha>, Gen<Beta>} (6 actions; 9 330 histories) and over {A, P1, P2, P3} where P1 (M1), P2 (M2), P3 (M1,M2) are three service TYPES registered under ONE service name (7 actions; 19 607 histories; the model keeps handlers per name: adds accumulate, a later add of the same message replaces the handler, removing the name removes them all) executed on the in-memory transport (same ServerState / handler dispatch code as TCP), and over four services whose short names are collision pairs of weak string hashes ('Aa'/'BB' under h*31+c, 'ab'/'ba' under order-insensitive sums; 8 actions, 37 448 histories) executed likewise; after EVERY step all 13 (service name,message) pairs are called through real RpcClients: Ok with that service's tag iff the service is in the registered-names model, else ServiceUnavailable. A seeded sample of histories is repeated on a real loopback TCP server. Concurrency: on a multi-thread runtime three clients keep calling a service that stays registered while another thread adds and removes two other services (one of them slow to drop) 80..480 times: no request may be refused or misrouted. Non-trivial = history contains a removal; distinct = distinct histories.",
+        "services A,B (message M1), C (M1,M2), D (M2) and two instantiations Gen<Alpha>, Gen<Beta> of one generic service (M1; names differing only inside <...>) on one real Server: every history of <= 5 actions out of {add X, remove X} over A-D (8 actions incl. double add, double remove, remove-unknown; 37 448 histories) over {A, Gen<Alpha>, Gen<Beta>} (6 actions; 9 330 histories) and over {A, P1, P2, P3} where P1 (M1), P2 (M2), P3 (M1,M2) are three service TYPES registered under ONE service name (7 actions; 19 607 histories; the model keeps handlers per name: adds accumulate, a later add of the same message replaces the handler, removing the name removes them all) executed on the in-memory transport (same ServerState / handler dispatch code as TCP), and over four services whose short names are collision pairs of weak string hashes ('Aa'/'BB' under h*31+c, 'ab'/'ba' under order-insensitive sums; 8 actions, 37 448 histories) executed likewise, and over four services whose names are related as strings ('Counter' a strict prefix of 'CounterV2', 'unter' a suffix of 'Counter', 'counter' differing in case only; 8 actions, 37 448 histories); after EVERY step all 17 (service name,message) pairs are called through real RpcClients: Ok with that service's tag iff the service is in the registered-names model, else ServiceUnavailable. A seeded sample of histories is repeated on a real loopback TCP server. Concurrency: on a multi-thread runtime three clients keep calling a service that stays registered while another thread adds and removes two other services (one of them slow to drop) 80..480 times: no request may be refused or misrouted. Non-trivial = history contains a removal; distinct = distinct histories.",
     );
     if let Some(path) = &args.replay {
         let r = read_replay(path);
@@ -496,6 +517,24 @@ pub fn c13(args: &Args) {
         }
         rec4(max_len, &mut Vec::new(), &mut hists);
     }
+    // fifth universe: four services whose names are related as strings - "Counter" is a strict prefix of
+    // "CounterV2", "unter" a suffix of "Counter", "counter" differs in case only (8 actions)
+    {
+        fn rec5(max: usize, cur: &mut Vec<u8>, out: &mut Vec<Vec<u8>>) {
+            if !cur.is_empty() {
+                out.push(cur.clone());
+            }
+            if cur.len() == max {
+                return;
+            }
+            for a in 26u8..34 {
+                cur.push(a);
+                rec5(max, cur, out);
+                cur.pop();
+            }
+        }
+        rec5(max_len, &mut Vec::new(), &mut hists);
+    }
     // only maximal histories need running when every step is probed: a history
     // is a prefix of its extensions. Keep all of length max_len.
     let full: Vec<Vec<u8>> = hists.iter().filter(|h| h.len() == max_len).cloned().collect();
@@ -531,7 +570,7 @@ pub fn c13(args: &Args) {
         let mut rng = rng_for(seed, 0xC13, 0);
         for k in 0..n_tcp {
             let len = rng.gen_range(2..=7);
-            let hist: Vec<u8> = (0..len).map(|_| rng.gen_range(0..26)).collect();
+            let hist: Vec<u8> = (0..len).map(|_| rng.gen_range(0..34)).collect();
             let addr = free_tcp_addr();
             let server = match Server::listen(addr).await {
                 Ok(s) => s,
@@ -911,6 +950,119 @@ async fn c12_small_messages(seed: u64, report: &mut Report) {
         trip!(Rgb { r: rng.gen(), g: rng.gen(), b: rng.gen() }, Rgb);
         trip!(OptByte(if rng.gen_bool(0.3) { None } else { Some(rng.gen()) }), OptByte);
         trip!(ByteWord { a: rng.gen(), w: rng.gen() }, ByteWord);
+    }
+    server.shutdown();
+}
+
+/// A message with reference-counted fields (rkyv archives the pointee of an `Arc` once per ARCHIVE and
+/// remembers its position by address): two fields may share one pointee, the same `Arc` may travel in
+/// many consecutive messages, and freshly allocated `Arc`s may reuse the address of dropped ones.
+#[derive(Serialize, Deserialize, Archive, PartialEq, Debug, Clone)]
+#[archive(check_bytes)]
+pub struct SharedMsg {
+    pub stamp: u64,
+    pub a: Arc<Vec<u8>>,
+    pub b: Arc<Vec<u8>>,
+    pub tail: Vec<u8>,
+    pub name: Arc<String>,
+}
+
+pub struct SharedSvc {
+    seen: Arc<Mutex<Vec<String>>>,
+}
+
+impl RpcService for SharedSvc {
+    fn register_handlers(r: &mut ServiceRegistry<Self>) {
+        r.add_handler::<SharedMsg>();
+    }
+}
+
+#[async_trait]
+impl Handler<SharedMsg> for SharedSvc {
+    type Reply = SharedMsg;
+    async fn on_message(&self, m: Request<SharedMsg>) -> Result<SharedMsg, Status> {
+        let v: SharedMsg = m.deserialize_view().map_err(Status::internal)?;
+        self.seen.lock().push(format!("{v:?}"));
+        Ok(v)
+    }
+}
+
+/// Messages with shared pointers: sequences of messages serialized one after the other on one thread
+/// (and sent over the wire), re-using `Arc`s across messages and recycling their addresses.
+async fn c12_shared_messages(seed: u64, report: &mut Report) {
+    let addr = free_tcp_addr();
+    let server = match Server::listen(addr).await {
+        Ok(s) => s,
+        Err(e) => {
+            report.run_inconclusive.push(format!("cannot listen on loopback: {e}"));
+            return;
+        },
+    };
+    let seen: Arc<Mutex<Vec<String>>> = Default::default();
+    server.add_service(SharedSvc { seen: seen.clone() });
+    let client = RpcClient::<SharedSvc>::new(Channel::connect(addr));
+    let mut rng = rng_for(seed, 0xC12, 0x5AA);
+    for seq in 0..40u64 {
+        // a pool of Arcs the messages of this sequence draw from; entries are replaced now and then
+        // (the old allocation is freed, the next one of that size tends to land on the same address)
+        let mut pool: Vec<Arc<Vec<u8>>> = (0..3).map(|k| Arc::new(vec![b'a' + k as u8; 8 * (k + 1)])).collect();
+        let mut names: Vec<Arc<String>> = vec![Arc::new("first".to_string()), Arc::new("second-name".to_string())];
+        for step in 0..12u64 {
+            let mut out = CaseOut::default();
+            if rng.gen_bool(0.4) {
+                let k = rng.gen_range(0..pool.len());
+                let len = pool[k].len();
+                let fill: u8 = rng.gen();
+                pool[k] = Arc::new(vec![fill; len]);
+            }
+            if rng.gen_bool(0.2) {
+                let k = rng.gen_range(0..names.len());
+                let len = names[k].len();
+                names[k] = Arc::new(gen_string(&mut rng, 0).chars().chain(std::iter::repeat('x')).take(len).collect());
+            }
+            let a = pool[rng.gen_range(0..pool.len())].clone();
+            let b = if rng.gen_bool(0.4) { a.clone() } else { pool[rng.gen_range(0..pool.len())].clone() };
+            let v = SharedMsg {
+                stamp: rng.gen(),
+                a,
+                b,
+                tail: (0..rng.gen_range(0..40)).map(|_| rng.gen()).collect(),
+                name: names[rng.gen_range(0..names.len())].clone(),
+            };
+            // (i) the frame by itself, serialized on this thread right after the previous message
+            match datacake_rpc::to_view_bytes(&v) {
+                Ok(bytes) => match DataView::<SharedMsg>::using(bytes) {
+                    Ok(view) => {
+                        let back: Option<SharedMsg> = view.deserialize_view().ok();
+                        if back.as_ref() != Some(&v) {
+                            out.violate("C12:frame-reads-back-as-a-different-value:message-with-shared-pointers", json!({"sequence": seq, "message_no": step, "sent": format!("{v:?}"), "read_back": format!("{back:?}")}));
+                        }
+                    },
+                    Err(_) => out.violate("C12:valid-frame-refused", json!({"type": "SharedMsg", "value": format!("{v:?}")})),
+                },
+                Err(e) => out.violate("C12:valid-value-not-serializable", json!({"type": "SharedMsg", "error": e.to_string()})),
+            }
+            // (ii) over the wire
+            match client.send(&v).await {
+                Ok(reply) => {
+                    let back: Option<SharedMsg> = reply.deserialize_view().ok();
+                    let saw = seen.lock().pop();
+                    if saw.as_deref() != Some(format!("{v:?}").as_str()) {
+                        out.violate("C12:handler-observed-different-value:message-with-shared-pointers", json!({"sequence": seq, "message_no": step, "sent": format!("{v:?}"), "handler_saw": saw}));
+                    }
+                    if back.as_ref() != Some(&v) {
+                        out.violate("C12:client-observed-different-reply:message-with-shared-pointers", json!({"sequence": seq, "message_no": step, "sent": format!("{v:?}"), "reply": format!("{back:?}")}));
+                    }
+                },
+                Err(e) => out.violate("C12:valid-request-failed", json!({"type": "SharedMsg", "error": format!("{e:?}")})),
+            }
+            out.count("shared_pointer_roundtrips", 1);
+            if Arc::ptr_eq(&v.a, &v.b) {
+                out.count("shared_pointer_messages_with_one_pointee_in_two_fields", 1);
+            }
+            out.nontrivial = Some(hash_of(&format!("{v:?}")));
+            report.absorb(out);
+        }
     }
     server.shutdown();
 }
@@ -1490,11 +1642,15 @@ pub fn c12(args: &Args) {
     c12_frames_in_children(args, &mut report, every, build);
     block_on_real(2, c12_large_frames(seed, &mut report, every));
     block_on_real(2, c12_small_messages(seed, &mut report));
+    // the same for messages carrying reference-counted fields; current-thread runtime, so that consecutive
+    // messages are serialized on ONE thread (per-thread serializer state would carry over)
+    block_on_real(0, c12_shared_messages(seed, &mut report));
     block_on_paused(c12_corrupt_replies(&mut report));
     let _ = std::panic::take_hook();
     report.floor("frame_families_completed", C12_FAMILIES as u64);
     report.floor("large_frame_mutants", 10_000);
     report.floor("small_scalar_roundtrips", 200);
+    report.floor("shared_pointer_roundtrips", 400);
     report.floor("roundtrips_over_tcp", 300);
     report.floor("frames_that_must_be_refused", 5_000);
     report.floor("raw_posts", 500);
@@ -1597,7 +1753,7 @@ pub fn c14_tcp(args: &Args) {
                 let client = RpcClient::<TagSvc>::new(channels[rng.gen_range(0..channels.len())].clone());
                 let (d, l) = (rng.gen_range(0..3_000u32), *[0u32, 1, 16, 100, 4_096, 65_536].choose(&mut rng).unwrap());
                 hs.push(tokio::spawn(async move {
-                    let r = client.send(&Tagged { id, delay_us: d, len: l, fail: false }).await;
+                    let r = if id % 2 == 1 { client.send_owned(Tagged { id, delay_us: d, len: l, fail: false }).await } else { client.send(&Tagged { id, delay_us: d, len: l, fail: false }).await };
                     (id, l, r.map(|v| (v.id.value(), v.payload.as_slice() == tag_payload(id, l).as_slice())).map_err(|e| format!("{:?}", e.code)))
                 }));
             }
@@ -1818,7 +1974,8 @@ pub fn c14_tcp_faults(args: &Args) {
                 hs.push(tokio::spawn(async move {
                     tokio::time::sleep(jitter).await;
                     let t0 = std::time::Instant::now();
-                    let r = client.send(&Tagged { id, delay_us: d, len: l, fail }).await;
+                    // (half of the requests go through the by-value API)
+                    let r = if id % 2 == 1 { client.send_owned(Tagged { id, delay_us: d, len: l, fail }).await } else { client.send(&Tagged { id, delay_us: d, len: l, fail }).await };
                     // a handler error must arrive as that very error (code + message); anything else the
                     // client reports in its place has to be a connection or timeout error
                     let r = match r {
